@@ -15,6 +15,15 @@ pub struct Image {
     pub text: String,
     /// The table this content denotes (by construction, or by the reference reader for V0).
     pub table: Vec<Entry>,
+    /// `false` for renderings that use liberties whose status is debatable (indented data lines,
+    /// white-space-only lines, indented comments, trailing blanks): a loader may refuse such a
+    /// file (O2 is not applied), but if it answers `Ok` the table must still be the file's (O1).
+    #[serde(default = "yes")]
+    pub strict: bool,
+}
+
+fn yes() -> bool {
+    true
 }
 
 impl Image {
@@ -222,6 +231,15 @@ pub struct Style {
     pub bulk_before: usize,
     #[serde(default)]
     pub bulk_after: usize,
+    /// Liberties of debatable status (see `Image::strict`).
+    #[serde(default)]
+    pub indent_data: bool,
+    #[serde(default)]
+    pub trailing_blanks: bool,
+    #[serde(default)]
+    pub blank_only_lines: bool,
+    #[serde(default)]
+    pub indent_comments: bool,
 }
 
 fn sep_str(sep: u8, rng: &mut Rng) -> String {
@@ -265,16 +283,30 @@ pub fn render(table: &[Entry], style: &Style, rng: &mut Rng) -> String {
         lines.push((*rng.pick(&COMMENTS)).to_string());
     }
     for (i, &(ts, dat)) in table.iter().enumerate() {
-        let mut l = format!("{ts}{}{dat}", sep_str(style.sep, rng));
+        let indent = if style.indent_data && rng.chance(1, 3) {
+            sep_str(5, rng)
+        } else {
+            String::new()
+        };
+        let mut l = format!("{indent}{ts}{}{dat}", sep_str(style.sep, rng));
         if style.trailing_comment {
             // date of the entry, as in the real file
             let (y, m) = civil_of_ntp(ts);
             l.push_str(&sep_str(style.sep, rng));
             l.push_str(&format!("# 1 {} {}", MONTH_ABBR[(m - 1) as usize], y));
         }
+        if style.trailing_blanks && rng.chance(1, 3) {
+            l.push_str(&sep_str(5, rng));
+        }
         lines.push(l);
         if style.interleaved_comments && rng.chance(1, 4) {
             lines.push((*rng.pick(&COMMENTS)).to_string());
+        }
+        if style.blank_only_lines && rng.chance(1, 10) {
+            lines.push(sep_str(5, rng));
+        }
+        if style.indent_comments && rng.chance(1, 10) {
+            lines.push(format!("{}{}", sep_str(5, rng), rng.pick(&COMMENTS)));
         }
         if style.blank_lines && rng.chance(1, 8) && i + 1 < table.len() {
             lines.push(String::new());
@@ -338,6 +370,10 @@ pub fn random_style(rng: &mut Rng) -> Style {
         footer_lines: if rng.chance(1, 2) { 0 } else { rng.urange(1, 6) },
         bulk_before: 0,
         bulk_after: 0,
+        indent_data: false,
+        trailing_blanks: false,
+        blank_only_lines: false,
+        indent_comments: false,
     }
 }
 
@@ -383,6 +419,7 @@ pub fn build_pool(shipped_text: String, shipped_table: Vec<Entry>, n_rendered: u
         class: "shipped".to_string(),
         text: shipped_text,
         table: shipped_table,
+        strict: true,
     }];
     let mut rng = Rng::new(seed ^ 0x1AA6_E5EE_D000_0001);
     for i in 0..n_rendered {
@@ -404,17 +441,30 @@ pub fn build_pool(shipped_text: String, shipped_table: Vec<Entry>, n_rendered: u
             }
             big = "+big";
         }
+        // One image in eight takes liberties of debatable status; those are judged by O1 only.
+        let mut strict = true;
+        if i % 8 == 3 {
+            strict = false;
+            style.indent_data = true;
+            style.trailing_blanks = r.chance(1, 2);
+            // the next two make today's loader refuse the file (which is acceptable): keep most
+            // lenient images loadable so that O1 has something to judge
+            style.blank_only_lines = r.chance(1, 4);
+            style.indent_comments = r.chance(1, 4);
+        }
         let text = render(&table, &style, &mut r);
         let class = format!(
-            "{tclass}{}{}{big}",
+            "{tclass}{}{}{big}{}",
             if style.crlf { "+crlf" } else { "" },
-            if style.final_newline { "" } else { "+nofinalnl" }
+            if style.final_newline { "" } else { "+nofinalnl" },
+            if strict { "" } else { "+lenient" }
         );
         pool.push(Image {
             name: format!("R{}", i + 1),
             class,
             text,
             table,
+            strict,
         });
     }
     pool
